@@ -379,6 +379,19 @@ def rule_drop(ctx):
             if isinstance(st, ast.If):
                 walk(st.body, guards + [norm_src(st.test)], out)
                 walk(st.orelse, guards, out)
+            elif isinstance(st, (ast.For, ast.While)):
+                # `for r in rs: if c: return` is `if any(c for r in rs):
+                # return`: the loop is part of the condition
+                head = 'for %s in %s' % (norm_src(st.target), norm_src(
+                    st.iter)) if isinstance(st, ast.For) else \
+                    'while %s' % norm_src(st.test)
+                inner = []
+                walk(st.body, [], inner)
+                for r_, g_ in inner:
+                    out.append((r_, guards + [' '.join(g_ + [head])]))
+                walk(st.orelse, guards, out)
+            elif isinstance(st, (ast.With, ast.Try)):
+                walk(st.body, guards, out)
             elif isinstance(st, ast.Return):
                 out.append((st, list(guards)))
     rets = []
